@@ -343,6 +343,67 @@ func checkForwardingChain(p *Program, r *RuleResult) {
 			}
 		}
 	})
+	// hop 2b: where end obtains the exception from a helper (closeOnEnd: the pending
+	// __close handlers run first and may themselves hit the limit), the helper's result
+	// that feeds the exception carries the value it recovered
+	forEachInstr(end, func(ins ssa.Instruction) {
+		call, ok := ins.(ssa.CallInstruction)
+		if !ok || call.Common().StaticCallee() != send {
+			return
+		}
+		args := call.Common().Args
+		for v := range backSlice(args[len(args)-1], false) {
+			ex, ok := v.(*ssa.Extract)
+			if !ok {
+				continue
+			}
+			hc, ok := ex.Tuple.(*ssa.Call)
+			if !ok {
+				continue
+			}
+			h := hc.Call.StaticCallee()
+			if h == nil || !p.InModule(h) || h.Blocks == nil {
+				continue
+			}
+			// the result slot: the Alloc that the helper's returns load result #ex.Index from
+			var slot *ssa.Alloc
+			forEachInstr(h, func(hi ssa.Instruction) {
+				if ret, ok := hi.(*ssa.Return); ok && ex.Index < len(ret.Results) {
+					if u, ok := ret.Results[ex.Index].(*ssa.UnOp); ok {
+						if al, ok := u.X.(*ssa.Alloc); ok {
+							slot = al
+						}
+					}
+				}
+			})
+			forwards := false
+			if slot != nil {
+				forEachInstr(h, func(hi ssa.Instruction) {
+					mc, ok := hi.(*ssa.MakeClosure)
+					if !ok {
+						return
+					}
+					fn := mc.Fn.(*ssa.Function)
+					for bi, b := range mc.Bindings {
+						if b != ssa.Value(slot) || bi >= len(fn.FreeVars) {
+							continue
+						}
+						fv := fn.FreeVars[bi]
+						for _, ref := range *fv.Referrers() {
+							if st, ok := ref.(*ssa.Store); ok && st.Addr == ssa.Value(fv) && derivesFromRecover(st.Val, 0) {
+								forwards = true
+							}
+						}
+					}
+				})
+			}
+			if forwards {
+				r.ok("forwarding chain: " + fnKey(h) + " hands the termination it recovered to Thread.end as the exception")
+			} else {
+				r.fail("forwarding-chain-helper:"+fnKey(h), p.Pos(h.Pos()), fmt.Sprintf("Thread.end takes the exception it forwards to the resumer from result #%d of %s, but that result never receives the value the helper recovers: a context killed while the ending coroutine's __close handlers run is reported to the resumer as an ordinary error, and the resumer carries on in a context that is already marked killed (its limits no longer enforced)", ex.Index, fnKey(h)))
+			}
+		}
+	})
 	for i, ok := range []bool{hop1, hop2, hop3, hop4} {
 		name := []string{"Start's handler hands the recovered value to t.end", "t.end passes its exception parameter to caller.sendResumeValues", "sendResumeValues sends its exception parameter on the resume channel", "getResumeValues panics with the exception it received"}[i]
 		if ok {
